@@ -224,11 +224,23 @@ func diffGlyf(a, b *glyf.Outlines) string {
 			return fmt.Sprintf("name %d: want %q got %q", i, a.Names[i], b.Names[i])
 		}
 	}
-	if len(a.Tables) != len(b.Tables) {
-		return fmt.Sprintf("extra tables: want %d got %d", len(a.Tables), len(b.Tables))
+	// a zero-length cvt/fpgm/prep/gasp table is the same as no table (the
+	// reader does not report empty tables)
+	nonEmpty := func(m map[string][]byte) map[string][]byte {
+		r := map[string][]byte{}
+		for k, v := range m {
+			if len(v) > 0 {
+				r[k] = v
+			}
+		}
+		return r
 	}
-	for k, v := range a.Tables {
-		if w, ok := b.Tables[k]; !ok || !bytes.Equal(v, w) {
+	ta, tb := nonEmpty(a.Tables), nonEmpty(b.Tables)
+	if len(ta) != len(tb) {
+		return fmt.Sprintf("extra tables: want %d got %d", len(ta), len(tb))
+	}
+	for k, v := range ta {
+		if w, ok := tb[k]; !ok || !bytes.Equal(v, w) {
 			return fmt.Sprintf("extra table %q differs", k)
 		}
 	}
